@@ -248,10 +248,63 @@ def run(ctx):
             il = inner[0]
             ex = il["exits"]
             oki = len(ex) == 1 and rp.blocks[ex[0][0]].term["k"] == "switch"
-        okr = okent and oko and oki and ie is not None
-        det = "entry keyed by the element's ip_addr=%s, drains queue=%s, visits every element=%s" % (okent, oko, oki)
+        # every snapshot popped goes through the merging loop: no path from the Some edge of pop() back to the outer header avoids it
+        okall = False
+        if outer and inner:
+            o = max(outer, key=lambda l: len(l["body"]))
+            tpop = rp.blocks[pb].term
+            dsw = rp.blocks[tpop["tgt"]].term if tpop.get("tgt") is not None else None
+            some_succ = None
+            if dsw and dsw["k"] == "switch":
+                for val, tgt in dsw["cases"]:
+                    if val == 1:
+                        some_succ = tgt
+                if some_succ is None and len(dsw["cases"]) == 1 and dsw["cases"][0][0] == 0:
+                    some_succ = dsw["otherwise"]
+            if some_succ is not None:
+                okall = values.must_pass(rp, [inner[0]["header"]], from_block=some_succ, to_blocks={o["header"]})
+        okr = okent and oko and oki and okall and ie is not None
+        det = "entry keyed by the element's ip_addr=%s, drains queue=%s, visits every element=%s, every snapshot goes through the merge loop=%s" % (okent, oko, oki, okall)
     ctx.check("merge", "receive_client_stats/merges-every-element-of-every-snapshot", okr, "every element of every popped snapshot is merged into its address's entry until the queue is empty",
               "receive_client_stats: " + det, ctx.loc(rp))
+
+    # the reporter's table only accumulates: between two reports it is written through entry(addr).or_insert..(..).merge(..) and nothing else
+    # (an insert / extend / remove would replace or drop sums that earlier snapshots contributed); report() may clear it after writing
+    RP = "roughenough::stats::reporter::Reporter"
+    nmut = 0
+    for f in P.fns.values():
+        if f.derived or f.impl_self != RP:
+            continue
+        fev = W.ev(f.path)
+        for (b, callee, argi, ap) in fev.events_on(1, ("client_stats",)):
+            tys = f.blocks[b].term.get("arg_tys") or []
+            if argi >= len(tys) or not tys[argi].startswith("&mut"):
+                continue
+            nm = callee_name(callee)
+            if nm in ("deref_mut", "borrow_mut", "as_mut"):
+                continue
+            nmut += 1
+            ok_m = nm == "entry" or nm in ("reserve", "shrink_to_fit", "shrink_to")
+            if nm == "clear":
+                # emptied right after the report was written: a call to report() dominates the clear() and nothing is merged in between
+                reps = [rb for rb, t2 in f.calls() if strip_generics(t2["fn"].get("path", "")) == RP + "::report"] if not f.path.endswith("::report") else [0]
+                for rb in reps:
+                    if rb != 0 and not f.dominates(rb, b):
+                        continue
+                    seen, dq = set(), list(f.succ(rb)) if rb != 0 else [0]
+                    while dq:
+                        n = dq.pop()
+                        if n in seen or n == b or (rb != 0 and n == rb):
+                            continue
+                        seen.add(n)
+                        dq.extend(f.succ(n))
+                    merged_between = any(f.blocks[n].term["k"] == "call" and (callee_name(f.blocks[n].term["fn"].get("path", "")) in ("entry", "insert", "extend") or
+                                         strip_generics(f.blocks[n].term["fn"].get("path", "")) == RP + "::receive_client_stats") for n in seen)
+                    if not merged_between:
+                        ok_m = True
+            ctx.check("merge", "reporter-table/%s@%s" % (nm, f.path.split("::")[-1]), ok_m, "client_stats is updated through %s in %s" % (nm, f.path.split("::")[-1]),
+                      "%s applies %s to the reporter's per-address table: sums merged from earlier snapshots can be replaced or dropped" % (f.path.split("::")[-1], nm), f.loc(b))
+    ctx.floor("merge", nmut, 2, "mutations of Reporter.client_stats (entry in receive_client_stats, clear in report)")
 
     # ------------------------------------------------------------------ (5) wiring in the send loop
     sr = ctx.fn(sm.SEND)
